@@ -129,6 +129,7 @@ class Effects:
         self.attr_tags = dict(attr_tags or {})
         self.memo = {}
         self.active = set()
+        self.tuple_rets = {}      # (function, ctx) -> per return statement: per-position provenance, or None for a non-tuple return
         self.ref_producers = set(REF_PRODUCERS) | set(extra_ref_producers)
         self.tmp_attrs = set(tmp_attrs)
 
@@ -279,6 +280,23 @@ class Effects:
                 out |= self.prov(v, env, f, ctx)
             return out or (set() if not e.elts else {'EXPR'})     # an empty literal contributes no element
         return {'EXPR'}
+
+    def _tuple_returns(self, call, env, f, ctx, arity):
+        """per-position provenance of a call whose callee returns tuples of this arity on every path, else None"""
+        ts, kind = self.prog.resolve_call(f, call, ctx)
+        if kind != 'resolved' or len(ts) != 1:
+            return None
+        g, c2 = ts[0]
+        self.summary(g, c2)
+        recs = self.tuple_rets.get((g.qn, c2))
+        if not recs or any(r is None or len(r) != arity for r in recs):
+            return None
+        b = bind_args(self.prog, f, call, g)
+        out = [set() for _ in range(arity)]
+        for r in recs:
+            for i, tags in enumerate(r):
+                out[i] |= self.map_tags(tags, b, env, f, ctx)
+        return out
 
     def map_tags(self, tags, b, env, f, ctx):
         """Map a callee's provenance tags through the argument binding b."""
@@ -477,6 +495,13 @@ class Effects:
                     for a, b in zip(t.elts, v.elts):
                         assign(a, b, env)
                 else:
+                    elems = self._tuple_returns(v, env, f, ctx, len(t.elts)) if isinstance(v, ast.Call) else None
+                    if elems is not None:
+                        # a, b = helper(...): each name gets what the helper returns in that position
+                        for a, pv in zip(t.elts, elems):
+                            if isinstance(a, ast.Name):
+                                env[a.id] = set(pv)
+                        return
                     pv = self.prov(v, env, f, ctx) if v is not None else {'EXPR'}
                     for a in t.elts:
                         if isinstance(a, ast.Name):
@@ -522,6 +547,11 @@ class Effects:
                     if s.value is not None:
                         expr_effects(s.value, env, guards)
                         rets.update(self.prov(s.value, env, f, ctx))
+                        if isinstance(s.value, ast.Tuple):
+                            rec = self.tuple_rets.setdefault((f.qn, ctx), [])
+                            rec.append([self.prov(x, env, f, ctx) for x in s.value.elts])
+                        else:
+                            self.tuple_rets.setdefault((f.qn, ctx), []).append(None)
                     return env, True
                 elif isinstance(s, ast.Raise):
                     if s.exc is not None:
